@@ -5,6 +5,7 @@ import FqeVerif.Driver.Parse
 import FqeVerif.Model.Maps
 import FqeVerif.Model.Cirq
 import FqeVerif.Model.Sectors
+import FqeVerif.Model.Hamil
 namespace Driver
 open Fock Model
 
@@ -157,6 +158,11 @@ def cmd (name : String) : P String := do
       let pat ← many n (do let l ← nat; let d ← nat; return (l, d != 0))
       let t := rdmSpec norb mode bra ket groups pat
       return " ".intercalate (toString t.length :: t.map GQ.toStr)
+  -- Model: reverse_bubble_list on a list of keys: `<n> keys` -> `<swaps> <n> sorted keys`
+  | "bubble" => do
+      let l ← natList
+      let (sorted, swaps) := bubbleDesc (fun (k : Nat) => k) l.length l
+      return s!"{swaps} " ++ showNats sorted
   | _ => throw s!"unknown command {name}"
 
 def handle (line : String) : String :=
